@@ -93,6 +93,8 @@ def _main(a, prop, tier, seed, t0):
     pending = list(sel)
     rounds = 0
     by_ident = {c.ident: (t, i) for t, lst in reg.items() for i, c in enumerate(lst)}
+    if tier == "thorough":
+        os.environ["VERIF_SECOND_SOLVER"] = "1"
     while pending and rounds < 6:
         rounds += 1
         res = prove.run(a.repo, pending, jobs=a.jobs, use_cache=not a.no_cache)
@@ -126,6 +128,7 @@ def _main(a, prop, tier, seed, t0):
     open_obls = []
     baseline = load_baseline()
     by_backend = {}
+    second = {}
     solver_time = 0.0
     crashes.extend(f"{v}: contradictory hypotheses (vacuous lemma proof)" for v in vacuous_lemmas)
     functions = []
@@ -161,6 +164,10 @@ def _main(a, prop, tier, seed, t0):
         for o in r["obligations"]:
             n_obl += 1
             solver_time += o.get("time_s", 0)
+            if o.get("second_solver"):
+                second[o["second_solver"]] = second.get(o["second_solver"], 0) + 1
+                if o["second_solver"] == "sat":
+                    crashes.append(f"solver disagreement on {o['id']}: z3 says valid, cvc5 finds a counter-model")
             if o["status"] == "proved":
                 n_dis += 1
                 by_backend[o["backend"]] = by_backend.get(o["backend"], 0) + 1
@@ -297,6 +304,9 @@ def _main(a, prop, tier, seed, t0):
         "known_findings_seen": [k["id"] for k in known_seen],
         "explanation": meta.get("explanation", ""),
     }
+    if second:
+        cov["second_solver_cvc5"] = {**second, "what": "cvc5 re-run on every obligation z3 discharged: unsat = confirmed independently, unknown = no answer within "
+                                     "the budget (not a failure), sat = disagreement (checker failure)"}
     cov["native_contract_crosscheck"] = {**native, "what": "real functions run by CPython on random small inputs satisfying `requires`; `ensures` / `raises` "
                                          "evaluated natively on the real results (bounded; guards against an unsound encoding)"}
     if bounded:
